@@ -31,9 +31,17 @@ class Module:
             warnings.simplefilter('ignore')
             self.tree = ast.parse(source, filename=relpath)
         self.norm_counts = {}
+        self.renamed = {}
+        self.propagated = {}
+        self.inlined, self.not_inlined = [], []
         if os.environ.get('SCMO_NO_NORMALIZE') != '1':
             from .normalize import normalize
             self.tree, self.norm_counts = normalize(self.tree)
+            from . import alpha, inline
+            self.inlined, self.not_inlined = inline.apply(self.tree, relpath)
+            self.renamed = alpha.apply(self.tree, relpath)
+            from . import propagate
+            self.propagated = propagate.apply(self.tree, relpath)
         self.lines = source.splitlines()
         self._defs = None
         # parent links and qualnames
